@@ -40,6 +40,7 @@ class TypeMap(dict):
         The result is cached so that the normal dict getitem will find it
         the next time getitem is called.
         """
+        _verif.point("tm.miss", cls=obj_t)
         results = {}
         groups = list(sort_types(obj_t, self.types))
 
@@ -211,6 +212,7 @@ class MultiTypeMap(dict):
         from .dependent import is_dependent
 
         self.clear()
+        _verif.point("mtm.clear")
 
         obj_t_tup = sig.types
         entry = (handler, sig)
@@ -354,10 +356,12 @@ class MultiTypeMap(dict):
             if func is None:
                 for tup in tups:
                     self.errors[tup] = self.key_error(obj_t_tup, group)
+                    _verif.point("resolve.remember_error", key=tup)
                 break
             else:
                 for tup in tups:
                     self[tup] = func
+                    _verif.point("resolve.write", key=tup)
             if not codes:
                 break
             parents = codes
@@ -365,6 +369,7 @@ class MultiTypeMap(dict):
         return True
 
     def __missing__(self, obj_t_tup):
+        _verif.point("mtm.miss", key=obj_t_tup)
         if obj_t_tup and isinstance(obj_t_tup[0], CodeType):
             real_tup = obj_t_tup[1:]
             self[real_tup]
